@@ -48,6 +48,8 @@ pub enum Site {
     /// the token holder made no progress for a while: it is blocked on a real OS primitive the
     /// simulator does not know (e.g. a mutex added to the code under test); another thread runs
     OsBlocked = 11,
+    /// a VFS call of SQLite (raw-storage mode: scheduling points below the storage trait)
+    Vfs = 12,
 }
 
 #[derive(Clone, Debug, Serialize, Deserialize, PartialEq)]
